@@ -19,10 +19,36 @@ def one_case(rnd):
     _, S, MM, D = _hm()
     from hmclab.Optimizers import gradient_descent
 
-    kind = rnd.choice(["normaldiag", "normaldiag", "himmelblau", "stdnormal", "laplace", "uniform", "bayes", "bayes"])
+    kind = rnd.choice(["normaldiag", "normaldiag", "himmelblau", "stdnormal", "laplace", "uniform", "bayes", "bayes", "bayes-user"])
     d = {"himmelblau": 2, "stdnormal": 1}.get(kind, rnd.choice([1, 2, 3, 5]))
     boxed = kind == "uniform" or rnd.random() < 0.4
-    if kind == "bayes":
+    if kind == "bayes-user":
+        # a posterior one factor of which is written by the user, the way users write them: the gradient of ½|m|² is "m" (the argument itself is returned),
+        # the gradient of rate·m is "rate" (an attribute is returned) - legal: nothing says that gradient() must return a fresh array
+        flavour = rnd.choice(["returns-its-argument", "returns-an-attribute"])
+
+        class UserFactor(D._AbstractDistribution):
+            def __init__(self, dims, rate):
+                self.name = "user factor"
+                self.dimensions = dims
+                self.rate = rate
+
+            def misfit(self, m_):
+                return (0.5 * float(np.sum(m_ ** 2)) if flavour == "returns-its-argument" else float(np.sum(self.rate * m_))) + self.misfit_bounds(m_)
+
+            def gradient(self, m_):
+                return m_ if flavour == "returns-its-argument" else self.rate
+
+            def generate(self, repeat=1, rng=None):
+                raise NotImplementedError()
+
+        rate = np.array([[rnd.uniform(0.2, 2.0)] for _ in range(d)])
+        like, _, _, ldesc, lb, ub = make_target(rnd, "normaldiag", d, False)
+        user = UserFactor(d, rate.copy())
+        order = rnd.choice(["user-first", "user-first", "user-last"])
+        dist = D.BayesRule([user, like] if order == "user-first" else [like, user])
+        tdesc = {"kind": "bayes-user", "order": order, "user_factor": flavour, "rate": rate.ravel().tolist(), "likelihood": ldesc}
+    elif kind == "bayes":
         # a posterior: uniform prior x Gaussian likelihood, in either order
         prior, _, _, pdesc, lb, ub = make_target(rnd, "uniform", d, True)
         like, _, _, ldesc, _, _ = make_target(rnd, "normaldiag", d, False)
